@@ -341,6 +341,12 @@ func runC16(c *Ctx) error {
 	}
 	fam3 := c.Rep.Family("expansion-scope", "every string-valued key path: values '${VERIF_X}', '$VERIF_X', 'lib-$VERIF_X.so', '/usr/$VERIF_X/${VERIF_X}x' under a mapping VERIF_X -> ' exp ' must be substituted (what a value denotes: the model of os.Expand) iff the source passes the field through os.Expand (static table G4), and a '$'-free value must come back as written (list items only trimmed); a substituted value that itself contains '$' must not be expanded again (one pass); contents src/dst with and without expand: true; passphrase precedence over all 16 combinations of the four NFPM_*PASSPHRASE variables; non-trivial = every case")
 	env := map[string]string{"VERIF_X": " exp "}
+	// the caller's mapping is the whole scope of a reference: variables of the process environment that the mapping
+	// does not define (here: set in the harness's own environment for the rest of this property's run) denote nothing
+	for _, k := range []string{"VERIF_PROC", "NONE", "NFPM_PASSPHRASE", "NFPM_DEB_PASSPHRASE", "NFPM_RPM_PASSPHRASE", "NFPM_APK_PASSPHRASE"} {
+		os.Setenv(k, "leak-from-process")
+		defer os.Unsetenv(k)
+	}
 	for _, p := range order {
 		if kinds[p] != "string" {
 			continue
@@ -357,7 +363,7 @@ func runC16(c *Ctx) error {
 			modes = append(modes, docSchemaNone)
 		}
 		for _, mode := range modes {
-			for _, val := range []string{"${VERIF_X}", "plain value", " padded ", "$VERIF_X", "lib-$VERIF_X.so", "/usr/$VERIF_X/${VERIF_X}x"} {
+			for _, val := range []string{"${VERIF_X}", "plain value", " padded ", "$VERIF_X", "lib-$VERIF_X.so", "/usr/$VERIF_X/${VERIF_X}x", "a-${VERIF_PROC}-b"} {
 				doc := docFor(kinds, p, val, mode)
 				if mode == docSchemaNone {
 					doc = docFor(kinds, p, val, -1)
@@ -397,6 +403,10 @@ func runC16(c *Ctx) error {
 					if hasRef && strings.Contains(g, "VERIF_X") {
 						c.Rep.Find(report.Finding{Property: "C16", Family: "expansion-scope", Shape: "documented-field-not-expanded", What: p + " kept the reference", Input: map[string]any{"path": p}})
 					}
+					continue
+				}
+				if hasRef && strings.Contains(g, "leak-from-process") {
+					c.Rep.Find(report.Finding{Property: "C16", Family: "expansion-scope", Shape: "reference-resolved-outside-the-mapping", What: fmt.Sprintf("%s: %q became %q: VERIF_PROC is not defined by the mapping handed to ParseWithEnvMapping, the value is the one of the process environment", p, val, g), Input: map[string]any{"path": p, "value": val, "mapping": env, "process_environment": "VERIF_PROC=leak-from-process"}})
 					continue
 				}
 				if g != want {
